@@ -150,6 +150,35 @@ def run(repo, res, tier):
                 )
     if n_blocks < 2:
         raise AnalysisError("fewer than 2 rotation blocks found in geometry/transform.py")
+    # every value a matrix function returns contains its rotation block (no path that skips the rotation), except under
+    # an exact `angle == 0` test
+    for fname, fn in tmod.functions.items():
+        blocks = [n for n in walk_no_nested(fn) if isinstance(n, ast.List) and len(n.elts) >= 2 and all(isinstance(r, ast.List) and len(r.elts) >= 2 for r in n.elts[:2]) and isinstance(n.elts[0].elts[1], ast.UnaryOp) and isinstance(n.elts[0].elts[1].op, ast.USub)]
+        if not blocks:
+            continue
+        rd = ReachingDefs(fn)
+        angle_params = [a.arg for a in fn.args.args if "angle" in a.arg]
+        ang = angle_params[0] if angle_params else "angle"
+
+        def uses_block(e, at, depth=0):
+            if any(x is b for b in blocks for x in ast.walk(e)):
+                return True
+            if depth > 6:
+                return False
+            for nm in [x for x in ast.walk(e) if isinstance(x, ast.Name) and isinstance(x.ctx, ast.Load)]:
+                ds = rd.defs(nm.id, at)
+                if ds and all(d.kind == "assign" and d.node is not None and uses_block(d.node, d.stmt, depth + 1) for d in ds):
+                    return True
+            return False
+
+        for r in walk_no_nested(fn):
+            if not (isinstance(r, ast.Return) and r.value is not None):
+                continue
+            ok = uses_block(r.value, r)
+            if not ok:
+                g = dominating_guards(tmod, r, stop=fn)
+                ok = any(pol and norm(t) in ("%s == 0" % ang, "%s == 0.0" % ang, "0 == %s" % ang) for t, pol in g)
+            res.check("T1-MATRIX", "%s: returned matrix contains the rotation block" % fname, ok, tmod, r, "%s: %s" % (fname, norm(r)[:80]), "a matrix without the rotation is returned for some angles (not only for angle == 0 exactly): small rotations are dropped while orientations still change", qualname=fname)
 
     # ------------------------------------------------------------ T2 / T3 / T6 over every translate_rotate
     sp = spatial_classes(repo)
